@@ -281,3 +281,17 @@ type Interior struct {
 	H *Small
 	I []int32
 }
+
+// Uni: exported field names that begin with letters outside ASCII (the library's case mapping is ASCII-only).
+type Uni struct {
+	Élan  int32
+	Ärger string
+	Ñu    bool
+	Ωmega []int32
+	Plain string
+}
+
+type Uni2 struct {
+	Élan int32
+	Ñu   string
+}
